@@ -245,6 +245,8 @@ func checkAccessors(c *core.Ctx, l *core.Ledger, mod *tmpl.Model, xs map[*tmpl.T
 	}
 	l.Floor("ACCESSOR", 6)
 	checkConstRender(c, l)
+	// decoded binaries and strings must not be views of memory the (pooled) reader keeps and reuses
+	checkFreshResults(c, l, "FRESH-RESULT", []string{"protocol/binary"})
 }
 
 var _ = core.ModPath
